@@ -1,22 +1,32 @@
 #!/venv/bin/python
-"""Differential test: Lean lexer/parser model (ops "lex", "parse") vs the real JaqalPaq code.
+"""Differential test + direct oracles for C02 / C16 (syntax half): Lean lexer/parser model (ops "lex",
+"parse" of `JaqalModel/Model/ParserOps.lean`) vs the real JaqalPaq code.
 
-    /venv/bin/python /verif/harness/agents/parse_diff.py [--driver PATH] [--n N] [--seed S] [--verbose]
+CLI:   /venv/bin/python /verif/harness/agents/parse_diff.py [--driver PATH] [--n N] [--seed S] [--thorough]
+API:   run(seed, n, driver, thorough) -> dict      (see notes/AGENT_CONVENTIONS.md, "Diff-script protocol")
+       replay(case, driver) -> dict
 
-`--driver` is a native line-protocol driver that knows the ops of `JaqalModel/Model/ParserOps.lean`
-(default: /verif/lean/.lake/build/bin/jaqal-model).
-
-Streams:  (a) grammar-directed random programs rendered with random layout (separator choice, comments,
-blank lines, spaces);  (b) single-token mutants of those (delete / duplicate / swap / replace);
-(c) character-level mutants and raw character noise over the alphabet of Jaqal;  (d) a fixed list of
-edge cases.  For every text both `parse_to_sexpression` and `JaqalLexer().tokenize` are compared with the
-model: acceptance, the S-expression / token list, and the (line, column) of errors, exactly.
-Any exception other than JaqalParseError from the real code is reported as a FINDING with its input.
-Exit status 0 iff there is no disagreement (findings do not change the exit status).
+Streams (n = number of generated programs; every program yields one text per stream):
+  grammar : grammar-directed random programs rendered with random layout (separator choice, comments,
+            blank lines, spaces); ~20 % violate a side condition (header after body, register size, import)
+  tokmut  : one token of the program deleted / duplicated / swapped / replaced / inserted
+  charmut : 1-3 characters of the rendered text deleted / inserted / replaced
+  noise   : random characters / random words over the alphabet of Jaqal
+  edge    : a fixed list of corner cases
+corr   : `parse_to_sexpression` and `JaqalLexer().tokenize` vs the model: acceptance, S-expression / token
+         list, and (line, column) of errors, exactly (floats: the model's exact decimal must round to the
+         float the lexer produced).
+oracle : properties of the real code alone
+  relayout_same_sexpr   : a valid program rendered twice with independent layouts (and `;`<->newline,
+                          `|`<->newline in parallel blocks) is accepted both times with the same S-expression
+  no_statement_dropped  : number of gate statements in the S-expression == number in the generating AST
+  reject_position       : a rejected single-token mutant of a valid program raises JaqalParseError at EOF or
+                          at a token start (real lexer) that is not before the first token of the top-level
+                          statement containing the mutation
+  only_JaqalParseError  : no input of any stream raises anything but JaqalParseError
 """
 import argparse
 import collections
-import decimal
 import json
 import random
 import subprocess
@@ -26,27 +36,27 @@ from jaqalpaq.parser.parser import parse_to_sexpression
 from jaqalpaq.parser.slyparse import JaqalLexer, JaqalParseError
 from jaqalpaq.parser.identifier import Identifier
 
+DEFAULT_DRIVER = "/verif/lean/.lake/build/bin/jaqal-model"
+
 # ----------------------------------------------------------------------------------------------- driver
 
 
-class Driver:
-    def __init__(self, path):
-        self.p = subprocess.Popen([path], stdin=subprocess.PIPE, stdout=subprocess.PIPE, text=True, bufsize=1)
-
-    def call(self, op, **kw):
-        self.p.stdin.write(json.dumps({"op": op, **kw}) + "\n")
-        self.p.stdin.flush()
-        line = self.p.stdout.readline()
-        if not line:
-            raise RuntimeError("driver died")
-        r = json.loads(line)
-        if "out" not in r:
-            raise RuntimeError(f"driver error {r} on {kw!r}")
-        return r["out"]
-
-    def close(self):
-        self.p.stdin.close()
-        self.p.wait()
+def drive(driver, op, texts):
+    """One subprocess for the whole batch: returns the list of `out` values."""
+    if not texts:
+        return []
+    inp = "".join(json.dumps({"op": op, "text": t}) + "\n" for t in texts)
+    r = subprocess.run([driver], input=inp, capture_output=True, text=True)
+    lines = [l for l in r.stdout.split("\n") if l.strip()]
+    if len(lines) != len(texts):
+        raise RuntimeError(f"driver returned {len(lines)} lines for {len(texts)} requests: {r.stderr[:300]}")
+    outs = []
+    for t, l in zip(texts, lines):
+        j = json.loads(l)
+        if "out" not in j:
+            raise RuntimeError(f"driver error {j} on {t!r}")
+        outs.append(j["out"])
+    return outs
 
 
 # ------------------------------------------------------------------------------------ rendering results
